@@ -1,4 +1,4 @@
-package props
+package c19
 
 import (
 	"bytes"
@@ -17,6 +17,7 @@ import (
 	recordtypes "mods.irisnet.org/modules/record/types"
 
 	"verifharness/chain"
+	"verifharness/gen"
 	"verifharness/pbt"
 )
 
@@ -53,7 +54,7 @@ type c19Machine struct {
 }
 
 func newC19() pbt.Machine[c19Op] {
-	c := env().NewCase()
+	c := gen.Env().NewCase()
 	c.IrismodOnly = false
 	return &c19Machine{c: c, recs: map[string]c19Rec{}, raw: map[string][]byte{}, dup: map[string]int{}}
 }
@@ -82,7 +83,7 @@ func (m *c19Machine) Next(t *rapid.T) c19Op {
 		}
 		return op
 	case k < 8:
-		return c19Op{Kind: "block", Dt: genDt(t, "dt")}
+		return c19Op{Kind: "block", Dt: gen.Dt(t, "dt")}
 	default:
 		return c19Op{Kind: "foreign", Who: rapid.IntRange(0, 2).Draw(t, "who"), Foreign: rapid.IntRange(0, 2).Draw(t, "foreign")}
 	}
@@ -219,5 +220,7 @@ func (m *c19Machine) Classify() (bool, []string) {
 const c19Rule = "rapid state machine: create (1-3 contents from a small alphabet, 1-3 identical messages per tx, 3 creators) / block (all-module blockers) / other-module message; non-trivial = history with >=2 byte-identical records (same creator and contents); distinct by SHA-256 of the op list"
 
 func init() { pbt.RegisterMachine("c19", newC19) }
+
+func TestReplay(t *testing.T) { pbt.ReplayMain(t) }
 
 func TestC19(t *testing.T) { pbt.RunMachine(t, "C19", "c19", c19Rule, newC19) }
